@@ -53,7 +53,7 @@ class Unifier:
             if a != b:
                 self.fail = '%s: %s vs %s' % (path, show(a), show(b))
             return a == b
-        if a[0] == 'app' and a[1] == 'Rng' and b[0] == 'app' and b[1] == 'Rng' and a[2][0] == b[2][0]:
+        if a[0] == 'app' and a[1] == 'Rng' and b[0] == 'app' and b[1] == 'Rng' and a[2][0] == b[2][0] and a[2][2:] == b[2][2:]:
             ia, ib = a[2][1], b[2][1]
             if ia in self.rmap:
                 if self.rmap[ia] != ib:
